@@ -54,6 +54,27 @@ def _name_relations(t):
     return tuple(out)
 
 
+def _key_positions(t):
+    """where the declared key columns sit in the column list (part of the shape: a key declared in another order than the columns
+    are defined is a different case for the output layer than one declared in definition order)"""
+    names = [c.get("name") for c in t.get("columns") or [] if isinstance(c, dict)]
+
+    def pos(x):
+        for i, n in enumerate(names):
+            try:
+                if deep_eq_safe(n, x):
+                    return i
+            except Exception:
+                pass
+        return -1
+    out = [tuple(pos(x) for x in (t.get("primary_key") or []))]
+    cons = t.get("constraints") or {}
+    for k in ("primary_keys", "uniques"):
+        for c in cons.get(k) or []:
+            out.append((k, tuple(pos(x) for x in (c.get("columns") or []))))
+    return tuple(out)
+
+
 class FinalJudge:
     def __init__(self, ctx, inner, rules=("keys", "shape", "modes"), modes=None, max_shapes=40, label=""):
         self.ctx, self.inner, self.rules, self.label = ctx, inner, set(rules), label
@@ -76,7 +97,7 @@ class FinalJudge:
         r = self.inner(ex, red)
         self.inner_checked = getattr(self.inner, "checked", 0)
         if red.lhs == "expr" and isinstance(red.new, dict) and "table_name" in red.new and "columns" in red.new and red.new.get("columns"):
-            k = (_shape(red.new), _name_relations(red.new))
+            k = (_shape(red.new), _name_relations(red.new), _key_positions(red.new))
             if k not in self.seen and len(self.seen) < 4000:
                 self.seen[k] = (copy.deepcopy(red.new), ex.render(ex._cur_ctx))
         return r
